@@ -13,7 +13,7 @@ import subprocess
 import sys
 
 VERIF = os.path.dirname(os.path.dirname(os.path.abspath(__file__)))
-WT = "/tmp/verif-recheckwt"
+WT = os.environ.get("VERIF_RECHECK_WT", "/tmp/verif-recheckwt")
 
 
 def sh(cmd, **kw):
